@@ -262,7 +262,7 @@ class UTF8String(Type):
         super(UTF8String, self).__init__(name, 'UTF8String')
 
     def encode(self, data, _separator, _indent):
-        return u'"{}"'.format(data)
+        return u'"{}"'.format(data.replace('"', '""'))
 
 
 class NumericString(Type):
@@ -271,7 +271,7 @@ class NumericString(Type):
         super(NumericString, self).__init__(name, 'NumericString')
 
     def encode(self, data, _separator, _indent):
-        return u'"{}"'.format(data)
+        return u'"{}"'.format(data.replace('"', '""'))
 
 
 class PrintableString(Type):
@@ -280,7 +280,7 @@ class PrintableString(Type):
         super(PrintableString, self).__init__(name, 'PrintableString')
 
     def encode(self, data, _separator, _indent):
-        return u'"{}"'.format(data)
+        return u'"{}"'.format(data.replace('"', '""'))
 
 
 class IA5String(Type):
@@ -289,7 +289,7 @@ class IA5String(Type):
         super(IA5String, self).__init__(name, 'IA5String')
 
     def encode(self, data, _separator, _indent):
-        return u'"{}"'.format(data)
+        return u'"{}"'.format(data.replace('"', '""'))
 
 
 class VisibleString(Type):
@@ -298,7 +298,7 @@ class VisibleString(Type):
         super(VisibleString, self).__init__(name, 'VisibleString')
 
     def encode(self, data, _separator, _indent):
-        return u'"{}"'.format(data)
+        return u'"{}"'.format(data.replace('"', '""'))
 
 
 class GeneralString(Type):
@@ -307,7 +307,7 @@ class GeneralString(Type):
         super(GeneralString, self).__init__(name, 'GeneralString')
 
     def encode(self, data, _separator, _indent):
-        return u'"{}"'.format(data)
+        return u'"{}"'.format(data.replace('"', '""'))
 
 
 class BMPString(Type):
@@ -316,7 +316,7 @@ class BMPString(Type):
         super(BMPString, self).__init__(name, 'BMPString')
 
     def encode(self, data, _separator, _indent):
-        return u'"{}"'.format(data)
+        return u'"{}"'.format(data.replace('"', '""'))
 
 
 class GraphicString(Type):
@@ -325,7 +325,7 @@ class GraphicString(Type):
         super(GraphicString, self).__init__(name, 'GraphicString')
 
     def encode(self, data, _separator, _indent):
-        return u'"{}"'.format(data)
+        return u'"{}"'.format(data.replace('"', '""'))
 
 
 class UniversalString(Type):
@@ -334,7 +334,7 @@ class UniversalString(Type):
         super(UniversalString, self).__init__(name, 'UniversalString')
 
     def encode(self, data, _separator, _indent):
-        return u'"{}"'.format(data)
+        return u'"{}"'.format(data.replace('"', '""'))
 
 
 class TeletexString(Type):
@@ -343,7 +343,7 @@ class TeletexString(Type):
         super(TeletexString, self).__init__(name, 'TeletexString')
 
     def encode(self, data, _separator, _indent):
-        return u'"{}"'.format(data)
+        return u'"{}"'.format(data.replace('"', '""'))
 
 
 class ObjectDescriptor(GraphicString):
